@@ -191,7 +191,7 @@ theorem nameNodeOf_token {doc : TsDoc} {n : Name} (hb : (nameNodeOf ⟨doc⟩ n)
   cases h : Schema.typeDef? ⟨doc⟩ n with
   | none => simp [h, bi] at hb
   | some td =>
-    simp only [h]
+    show TsToken doc td.namePos n
     unfold Schema.typeDef? at h
     have hmem := List.mem_of_find?_eq_some h
     have hname := List.find?_some h
